@@ -111,10 +111,13 @@ inductive Frame where
   | ctrlRsp (fid sb stype : Nat)         -- Select.rsp (2) / Deselect.rsp (4) / Linktest.rsp (6)
   | reject (fid sb reason : Nat)         -- Reject.req (7), reason = header byte 3
   | bad (fid : Nat)                      -- bad PType / SType / control frame with a body: answered with Reject, never routed
+  | foreign (fid : Nat)                  -- a well-formed data frame (not S9F1) whose SessionID is not the connection's own,
+                                         -- received with WithSessionIDValidation on: counted at the receive chokepoint FIRST,
+                                         -- then screened (answered with S9F1 and dropped, never routed)
   deriving DecidableEq, Repr
 
 def Frame.fid : Frame → Nat
-  | .data f _ _ _ => f | .ctrlRsp f _ _ => f | .reject f _ _ => f | .bad f => f
+  | .data f _ _ _ => f | .ctrlRsp f _ _ => f | .reject f _ _ => f | .bad f => f | .foreign f => f
 
 /-- Where one inbound frame went. -/
 inductive Recipient where
@@ -126,6 +129,7 @@ inductive Recipient where
   | notSelected            -- data while not Selected: Reject(4), not counted, not routed
   | orphanCtrl             -- control response with no open transaction: Reject(TransactionNotOpen)
   | orphanReject           -- Reject.req with no open transaction: dropped
+  | foreignSession         -- checkSessionID: SessionID mismatch, answered with S9F1 and dropped (after being counted)
   | malformed
   deriving DecidableEq, Repr
 
@@ -316,9 +320,11 @@ def Frame.offer : Frame → Option (Nat × Res)
   | .ctrlRsp fid sb st => some (sb, .ctrl fid sb st)
   | .reject _ sb reason => some (sb, .rej reason)
   | .bad _ => none
+  | .foreign _ => none
 
 def Frame.isData : Frame → Bool
   | .data .. => true
+  | .foreign _ => true
   | _ => false
 
 /-- `replyKind` match (reply_registry.go route): a data secondary completes only a data transaction, a control
@@ -328,6 +334,7 @@ def Frame.matches (k : Kind) : Frame → Bool
   | .ctrlRsp .. => !k.isData
   | .reject .. => true
   | .bad _ => false
+  | .foreign _ => false
 
 /-- recipient when the registry is missed (or not consulted) -/
 def missRecipient (c : Cfg) : Frame → Recipient
@@ -335,6 +342,7 @@ def missRecipient (c : Cfg) : Frame → Recipient
   | .ctrlRsp .. => .orphanCtrl
   | .reject .. => .orphanReject
   | .bad _ => .malformed
+  | .foreign _ => .foreignSession
 
 /-- dispatchFrame + DeliverOwnedFrame + RouteReply for one frame: (recipient, channel fill) -/
 def dispatch (c : Cfg) (f : Frame) : Recipient × Option (Nat × Res) :=
